@@ -81,8 +81,13 @@ def c17(tier):
         res = run_projects(roots, env={"RAYON_NUM_THREADS": n})
         for root, o0, o1 in zip(roots, base, res):
             compared += 1
-            if cj(o0["results"]) != cj(o1["results"]) or cj(o0["status"]) != cj(o1["status"]):
-                a, b = o0["results"], o1["results"]
+            # the order across modules is the iteration order of a hash map (it differs between two runs on ONE thread as well) and every
+            # reporter groups the results by module, sorted (telemetry::group_by_module): compare what the user sees - the results per
+            # module, in the order they come
+            view = lambda rs: sorted(((m, [r for r in rs if r.get("module") == m]) for m in set(r.get("module") for r in rs)), key=lambda x: str(x[0]))
+            stat = lambda st: sorted(st["err"].split(" | ")) if isinstance(st, dict) and isinstance(st.get("err"), str) else st
+            if cj(view(o0["results"])) != cj(view(o1["results"])) or cj(stat(o0["status"])) != cj(stat(o1["status"])):
+                a, b = [r for _, rs in view(o0["results"]) for r in rs], [r for _, rs in view(o1["results"]) for r in rs]
                 diff = next(((x, y) for x, y in zip(a, b) if cj(x) != cj(y)), (len(a), len(b)))
                 rep.violation("schedule:" + os.path.basename(root) + n, {"project": os.path.basename(root), "threads": n, "first_difference": diff},
                               "running the tests on %s threads gives different results (or a different order) than the default run" % n)
